@@ -379,7 +379,7 @@ def _st(r):
     return "discharged" if r == z3.unsat else ("refuted" if r == z3.sat else "unknown")
 
 
-def check_agreement(fn_name, timeout_ms=20000):
+def check_agreement(fn_name, timeout_ms=120000):
     """-> list of (obligation id, status, witness|None, text)"""
     api_text, tmpl = read_api_regex(fn_name)
     mp_text = read_match_pattern_regex()
